@@ -167,6 +167,17 @@ impl Unifiable {
         // Anonymous variable $_ unifies with everything.
         if Unifiable::Anonymous == *other { return Some(Rc::clone(ss)); }
 
+        // The unify method of a function evaluates the function.
+        // If the other term is a function, and this term is neither a
+        // function nor $_, call the other term's unify method.
+        if let Unifiable::SFunction{name: _, terms: _} = other {
+            match self {
+                Unifiable::Anonymous |
+                Unifiable::SFunction{name: _, terms: _} => {},
+                _ => { return other.unify(self, ss); },
+            }
+        }
+
         match self {
 
             // $_ unifies with everything.
@@ -218,12 +229,6 @@ impl Unifiable {
                 // The following statement prevents endless loops, which occur when
                 // a substitution set has a variable with ID = 0 at location 0.
                 if id == 0 { panic!("{}", VAR_ID_0_ERR); }
-
-                // The unify method of a function evaluates the function.
-                // If the other term is a function, call its unify method.
-                if let Unifiable::SFunction{name: _, terms: _} = other {
-                    return other.unify(self, ss);
-                }
 
                 let length_src = ss.len();
 
